@@ -43,6 +43,11 @@ pub use serialization::serialize;
 
 use std::collections::HashMap;
 
+/// Arrays and objects can be nested, and each level of nesting is handled recursively.  To keep
+/// the stack usage bounded on untrusted input the deserializer reports deeper nesting than this
+/// as an error, and the serializer refuses to produce it.
+const MAX_NESTING_DEPTH: usize = 128;
+
 /// An Enum representing the different supported types of Amf0 values
 #[derive(PartialEq, Debug, Clone)]
 pub enum Amf0Value {
